@@ -110,8 +110,48 @@ pub enum GenUse {
     Next,
     ToTuple,
     EachToList,
+    /// the spinning generator is handed to an adaptor (as receiver or as argument) and the
+    /// result is consumed by `for`: index into GEN_ADAPTORS
+    Adapted(u8),
 }
-pub const GENUSES: &[GenUse] = &[GenUse::For, GenUse::Next, GenUse::ToTuple, GenUse::EachToList];
+pub const GENUSES: &[GenUse] = &[
+    GenUse::For,
+    GenUse::Next,
+    GenUse::ToTuple,
+    GenUse::EachToList,
+    GenUse::Adapted(0),
+    GenUse::Adapted(1),
+    GenUse::Adapted(2),
+    GenUse::Adapted(3),
+    GenUse::Adapted(4),
+    GenUse::Adapted(5),
+    GenUse::Adapted(6),
+    GenUse::Adapted(7),
+    GenUse::Adapted(8),
+    GenUse::Adapted(9),
+    GenUse::Adapted(10),
+    GenUse::Adapted(11),
+    GenUse::Adapted(12),
+    GenUse::Adapted(13),
+    GenUse::Adapted(14),
+];
+pub const GEN_ADAPTORS: &[&str] = &[
+    "(1..=3).zip(sg())",
+    "sg().zip(1..=3)",
+    "(1..=3).chain(sg())",
+    "sg().chain(1..=3)",
+    "sg().skip(1)",
+    "sg().step(2)",
+    "sg().take(2)",
+    "sg().enumerate()",
+    "sg().chunks(2)",
+    "sg().windows(2)",
+    "sg().intersperse(0)",
+    "sg().peekable()",
+    "sg().cycle().take(3)",
+    "sg().keep(|v| true)",
+    "(1..=3).intersperse(|| sg().next())",
+];
 
 #[derive(Clone, Copy, Debug, PartialEq, Eq, Hash)]
 pub enum Phase {
@@ -301,7 +341,7 @@ pub fn render(spec: &Spec) -> Scenario {
                 Meta::Eq => ("@==", "other", vec!["w = mo == 1"]),
                 Meta::EqInList => ("@==", "other", vec!["w = [mo] == [mo]"]),
                 Meta::Less => ("@<", "other", vec!["w = mo < 1"]),
-                Meta::LessInSort => ("@<", "other", vec!["w = [mo, mo].sort()"]),
+                Meta::LessInSort => ("@<", "other", vec!["w = [mo, mo, mo, mo, mo, mo].sort()"]),
                 Meta::LessEqDerived => ("@<", "other", vec!["w = mo >= 1"]),
                 Meta::Display => ("@display", "", vec!["w = 'a{mo}b'"]),
                 Meta::DisplayInList => ("@display", "", vec!["w = 'a{[mo]}b'"]),
@@ -343,6 +383,10 @@ pub fn render(spec: &Spec) -> Scenario {
                 GenUse::Next => vec!["w = sg().next()".into()],
                 GenUse::ToTuple => vec!["w = sg().to_tuple()".into()],
                 GenUse::EachToList => vec!["w = sg().each(|v| v).to_list()".into()],
+                GenUse::Adapted(k) => vec![
+                    format!("for v in {}", GEN_ADAPTORS[k as usize % GEN_ADAPTORS.len()]),
+                    "  w = v".into(),
+                ],
             };
         }
         Placement::KotoRun => {
@@ -719,6 +763,9 @@ pub struct RunResult {
     /// result of the probe script run afterwards on the same instance
     pub probe: Option<Result<String, String>>,
     pub probe_duration: u64,
+    /// VM instructions begun after the first timeout fired (a fired timeout ends the run: the
+    /// error travels to the host without any further instruction)
+    pub instructions_after_timeout: u64,
 }
 
 pub struct Scratch {
@@ -768,6 +815,7 @@ pub fn execute(sc: &Scenario, limited: bool, clock: &Rc<VClock>, scratch: &Scrat
         run_tests: sc.run_tests,
         run_import_tests: true,
         execution_limit_ns: if limited { Some(sc.limit_ns) } else { None },
+        builder_order_seed: sc.limit_ns ^ (sc.source.len() as u64) << 20 ^ sc.profile.seed,
     });
     host.log.lock().unwrap().slow_ns = sc.slow_ns;
 
@@ -800,6 +848,11 @@ pub fn execute(sc: &Scenario, limited: bool, clock: &Rc<VClock>, scratch: &Scrat
     }));
     out.end_time = clock.now_true();
     out.instructions = clock.instructions();
+    out.instructions_after_timeout = clock
+        .fired_at_ordinal
+        .get()
+        .map(|o| clock.instructions().saturating_sub(o))
+        .unwrap_or(0);
     match run {
         Ok(r) => out.result = Some(r),
         Err(payload) => {
@@ -919,6 +972,22 @@ pub fn check(sc: &Scenario, r: &RunResult, reference: Option<&RunResult>) -> Opt
         return viol("timeout-caught", format!("catch block received: {text}"));
     }
 
+    // clause 6: a timeout that fired is final - the error reaches the host without any further
+    // VM instruction (no catch block, no retry by a native function, no re-armed re-entry)
+    if r.instructions_after_timeout > 0 && r.panic.is_none() {
+        return viol(
+            "executed-after-timeout",
+            format!(
+                "{} VM instructions were executed after the first timeout had fired (run ended {})",
+                r.instructions_after_timeout,
+                match &r.result {
+                    Some(Ok(v)) => format!("with Ok({v})"),
+                    Some(Err(e)) => format!("with error: {}", host::first_line(e)),
+                    None => "at the step cap".to_string(),
+                }
+            ),
+        );
+    }
     // clause 3 (per entry): no instruction begins after deadline + slack
     let mut worst: Option<(f64, String)> = None;
     for e in &r.entries {
